@@ -568,13 +568,17 @@ def r6_destructuring_assign(text, hits):
         _count(hits, 'R6.destructuring_assign')
 
 
-def expand_macros(text, macros, hits, depth=0):
-    """mini-expander for the repository's own single-arm macro_rules (DESIGN 2.1):
-    `$name` is replaced by the parenthesised argument text, recursively."""
+def expand_macros(text, macros, hits, depth=0, context=None):
+    """mini-expander for the repository's own single-arm macro_rules (DESIGN 2.1).
+    inline mode: `$name` is replaced by the parenthesised argument text, recursively.
+    fn mode (R13, MacroDef.fn_params set): the invocation becomes a call of the function generated from the
+    macro body (`<name>__fn`), place arguments passed by reference; if the macro can `return` from its caller the
+    call is wrapped in a match that returns the error."""
     if depth > 8:
         raise CutError('macro expansion too deep')
     if not macros:
         return text
+    ctx = context if context is not None else text
     while True:
         m = mask(text)
         for s, o, c, name in _macro_calls(text, m, list(macros)):
@@ -584,25 +588,65 @@ def expand_macros(text, macros, hits, depth=0):
                 args = args[:-1]
             if len(args) != len(md.params):
                 raise CutError('macro %s: %d args for %d params' % (name, len(args), len(md.params)))
-            body = md.body
-            for (pn, frag), a in zip(md.params, args):
-                rep = a if frag in ('ident', 'ty', 'tt', 'literal', 'path', 'lifetime', 'block') else '(' + a + ')'
-                body = re.sub(r'\$' + pn + r'\b', lambda _m, rep=rep: rep, body)
-            if '$' in body:
-                raise CutError('macro %s: unexpanded metavariable remains' % name)
-            body = expand_macros(body, macros, hits, depth + 1)
             e = c + 1
             k = e
             while k < len(text) and text[k] in ' \t':
                 k += 1
             if k < len(text) and text[k] == ';':
                 e = k + 1
-            # statement-position macro whose body is a sequence of statements: wrap in a block
+            if getattr(md, 'fn_params', None):
+                call_args = []
+                for (pn, kind), a in zip(md.fn_params, args):
+                    a1 = ' '.join(a.split())
+                    if kind == 'mut':
+                        if re.match(r'^[A-Za-z_][A-Za-z0-9_]*$', a1) and re.search(r'\b' + a1 + r'\s*:\s*&\s*mut\b', ctx):
+                            call_args.append('&mut *' + a1)
+                        else:
+                            call_args.append('&mut ' + a1)
+                    elif kind == 'ref':
+                        call_args.append('&' + a1)
+                    else:
+                        call_args.append(a1)
+                call = '%s__fn(%s)' % (name, ', '.join(call_args))
+                if md.may_return:
+                    new = ('match %s { core::result::Result::Ok(_) => {}, core::result::Result::Err(e__) => { return PrinterLogMessageResult::Err(e__); } }' % call)
+                else:
+                    new = call + ';'
+                text = _sub(text, s, e, new)
+                _count(hits, 'R13.macro_as_fn_call.' + name)
+                break
+            body = md.body
+            for (pn, frag), a in zip(md.params, args):
+                rep = a if frag in ('ident', 'ty', 'tt', 'literal', 'path', 'lifetime', 'block') else '(' + a + ')'
+                body = re.sub(r'\$' + pn + r'\b', lambda _m, rep=rep: rep, body)
+            if '$' in body:
+                raise CutError('macro %s: unexpanded metavariable remains' % name)
+            body = expand_macros(body, macros, hits, depth + 1, ctx)
             text = _sub(text, s, e, '{' + body + '}')
             _count(hits, 'MX.' + name)
             break
         else:
             return text
+
+
+def macro_as_fn(md, macros, fn_params, may_return, generics, ret_ty):
+    """R13: text of the function generated from a macro body.  `$p` -> `(*p)` for by-reference parameters,
+    `(p)` for by-value ones; `return PrinterLogMessageResult::Err(x)` -> `return Err(x)`; falls through to Ok(())."""
+    hits = {}
+    body = md.body
+    for (pn, frag), (fpn, kind, ty) in zip(md.params, fn_params):
+        rep = '(*%s)' % pn if kind in ('mut', 'ref') else '(%s)' % pn
+        body = re.sub(r'\$' + pn + r'\b', lambda _m, rep=rep: rep, body)
+    if '$' in body:
+        raise CutError('macro %s: unexpanded metavariable remains' % md.name)
+    sig_ctx = ', '.join('%s: %s' % (pn, ('&mut ' if kind == 'mut' else '&' if kind == 'ref' else '') + ty) for pn, kind, ty in fn_params)
+    body, h2 = apply_rules(body, macros={k: v for k, v in macros.items() if k != md.name}, context=sig_ctx)
+    hits.update(h2)
+    if may_return:
+        body = body.replace('PrinterLogMessageResult::Err(', 'core::result::Result::Err(')
+    params = ', '.join('%s: %s%s' % (pn, '&mut ' if kind == 'mut' else '&' if kind == 'ref' else '', ty) for pn, kind, ty in fn_params)
+    g = '<%s>' % generics if generics else ''
+    return g, params, body, hits
 
 
 def r12_unsafe_blocks(text, hits):
@@ -626,7 +670,7 @@ def r12_unsafe_blocks(text, hits):
 ALL_RULES = ['R2', 'R1', 'R7', 'R3', 'R4', 'R5', 'R6']
 
 
-def apply_rules(text, rules=None, macros=None):
+def apply_rules(text, rules=None, macros=None, context=None):
     """returns (text, hits).  Order matters: cfg blocks first (they may contain trace macros),
     then macro expansion, then trace deletion, asserts, error strings."""
     hits = {}
@@ -635,7 +679,7 @@ def apply_rules(text, rules=None, macros=None):
     if 'R2' in rules:
         text = r2_cfg_blocks(text, hits)
     if macros:
-        text = expand_macros(text, macros, hits)
+        text = expand_macros(text, macros, hits, 0, context if context is not None else text)
         if 'R2' in rules:
             text = r2_cfg_blocks(text, hits)
     if 'R1' in rules:
